@@ -16,11 +16,17 @@ def _compile(E, st, node, args, kws, k):
 _compile.__name__ = 're.compile(p) = pure function of the pattern text'
 
 
+def _unopt(x):
+    return x.inner if x.__class__.__name__ == 'VOpt' else x      # specs are read on the paths where the value exists
+
+
 def _matches(E, st, p, v):
+    p, v = _unopt(p), _unopt(v)
     return VBool(re_search(pat_search(re_compile(p.z)), v.z))
 
 
 def _searcher(E, st, p):
+    p = _unopt(p)
     return VObj('Search', pat_search(re_compile(p.z)))
 
 
